@@ -135,7 +135,7 @@ def project_fs(res, case_spec):
         sn["flag"] = "post"
         sn["expectall"] = bool(case_spec.get("expectall"))
         mm = int(case_spec.get("mkmode", 0o755))
-        sn["rid"] = (mm & ~0o022) if mm >= 0 else -1      # expected mode of created directories (-1: callers differ)
+        sn["rid"] = (mm & ~int(case_spec.get("umask", 0o022))) if mm >= 0 else -1      # expected mode of created directories (-1: callers differ)
     out.append(sn)
     return out
 
